@@ -243,8 +243,12 @@ def run(ctx):
                 ctx.cov["samples"].append({"source": f"MC_Containers {comp}", "trace": [json.loads(x) for x in ls[s:e]]})
     del ls
     # ---- T
-    selftest(ctx, trace, kd)
     judge_trace(ctx, trace, "MC_Containers (all configurations)", kd, totals)
+    if ctx.violations:
+        # the self-test presupposes a conforming trace; the violation is the verdict
+        ctx.cov["binding_selftest"] = {"skipped": "violations were reported"}
+    else:
+        selftest(ctx, trace, kd)
     # ---- seeded random long histories (dyn and hl alternate)
     nrand, rlen = (40, 60) if ctx.quick else (1200, 100)
     rtrace = ctx.path("trace_random.ndjson")
